@@ -194,6 +194,15 @@ End ==
   /\ UNCHANGED <<input, limit, faulty, linesMode, isRef, key, binary, delivered, sdone, srcFailed, reported, pos, lns,
                  items, callOpen, lastGu, skip>>
 
+\* a long generated input streamed through a parser (C10): the reader's buffer obeys the design model's
+\* BufBound (3 chunks + the largest look-ahead, here the longest item) and the peak heap depends on the
+\* chunk size and the longest item only - not on the number of bytes or items processed
+StreamOk(res, nitems, expected, chunk, maxItem, peak, maxBufLen, maxBufCap) ==
+  /\ res = "ok" /\ nitems >= expected
+  /\ maxBufLen <= 3 * chunk + maxItem + 64
+  /\ maxBufCap <= 2 * (3 * chunk + maxItem + 64)
+  /\ peak <= 8 * chunk + 16 * maxItem + 65536
+
 \* measured heap of the same run without tracing (C05)
 HeapOk(peak, consumed, chunk, panicked) ==
   /\ ~panicked
